@@ -380,7 +380,29 @@ def apply_op(w, op, props):
         ask = present + absent
         r.shuffle(ask)
         others = {kk: v for kk, v in w.model.items() if kk not in present}
+        dupdir = os.path.join(w.folder, 'duplicates')
+        planted = []
+        if 'C11' in props and r.random() < .6:
+            # stray duplicate files, as the loose writer leaves them when it cannot replace an existing file (Windows):
+            # duplicates/<key>.<uuid>, here with the object's own bytes, for several of the keys at once
+            import uuid as _uuid
+            for kk in present + sorted(others)[:1]:
+                for _ in range(r.randrange(1, 3)):
+                    fn = f'{kk}.{_uuid.UUID(int=r.getrandbits(128)).hex}'
+                    with open(os.path.join(dupdir, fn), 'wb') as fh:
+                        fh.write(w.model[kk])
+                    planted.append((kk, fn))
         ret = c.delete_objects(ask)
+        left = set(os.listdir(dupdir))
+        for kk, fn in planted:
+            if kk in present:
+                chk('C11', fn not in left, f'delete_objects left the stray duplicate {fn[:16]}.. of a deleted object (form: with duplicates)')
+            else:
+                chk('C11', fn in left, 'delete_objects removed a duplicate of an object that was not requested')
+        if planted:
+            c.clean_storage()       # must cope with the remaining duplicates (of live objects) and remove them
+            chk('C11', not [f for f in os.listdir(dupdir) if '.' in f and not f.startswith('.')],
+                'clean_storage left duplicates of live objects behind')
         chk('C11', sorted(ret) == sorted(present), 'delete_objects did not return exactly the requested keys that existed',
             ret=sorted(ret), expected=sorted(present))
         for kk in present:
